@@ -149,6 +149,22 @@ def r10_2_loop_logs_reported(repo: Repo, rep: Report):
     # the engine's log object is created per engine and only appended to
     ms, init = repo.fn("sevm.SEVM.__init__")
     rep.check("R10.2", "self.logs = HalmosLogs()" in src(init), ms, init, "SEVM.__init__: self.logs = HalmosLogs()", "each engine must own a fresh loop log")
+    # the log lives as long as the engine: between its creation and the report nothing may replace or empty it
+    writers = []
+    for mm in repo.modules.values():
+        for n in ast.walk(mm.tree):
+            if isinstance(n, ast.Attribute) and isinstance(n.ctx, (ast.Store, ast.Del)) and n.attr in ("logs", "bounded_loops"):
+                f = mm.enclosing_func(n)
+                where = mm.qual(n)
+                if f is not None and f.name in ("__init__", "__post_init__") and isinstance(n.value, ast.Name) and n.value.id == "self":
+                    if (n.attr == "logs" and where.startswith("sevm.SEVM.")) or (n.attr == "bounded_loops" and where.startswith("sevm.HalmosLogs.")):
+                        continue  # the constructors of the engine and of the log
+                writers.append((mm, n, where))
+            elif isinstance(n, ast.Call) and isinstance(n.func, ast.Attribute) and n.func.attr in ("clear", "pop", "remove") and src(n.func.value).endswith("bounded_loops"):
+                writers.append((mm, n, mm.qual(n)))
+    for mm, n, where in writers:
+        rep.bad("R10.2", mm, n, f"{where}: {src(mm.parents.get(n, n))[:100]}", "the bounded-loop log is replaced or emptied after the engine was created: cuts recorded before this point are never reported")
+    rep.ok("R10.2", ms, init, f"writers of .logs / .bounded_loops outside SEVM.__init__: {len(writers)}")
     # no other SEVM constructions elsewhere that could run code without a report
     for modname in ("cheatcodes", "sevm", "solve", "traces"):
         mm = repo.mod(modname)
